@@ -105,7 +105,9 @@ func toySchnorr(baseLog uint64, prng *script) *P[schX, schW, schA, schS, schZ] {
 		return schnorr.NewStatement[E, Sc](toy.FromLog(baseLog * w[0])), schnorr.NewWitness(toy.FromInt(w[0]))
 	}
 	p.Sample = func(r *rand.Rand) (schX, schW) { return p.FromW([]uint64{1 + r.Uint64N(toy.Q-1)}) }
-	p.Extract = func(x schX, a schA, es []sigma.ChallengeBytes, zs []schZ) (schW, error) { return pr.Extract(x, a, es, zs) }
+	p.Extract = func(x schX, a schA, es []sigma.ChallengeBytes, zs []schZ) (schW, error) {
+		return pr.Extract(x, a, es, zs)
+	}
 	return p
 }
 
@@ -135,7 +137,7 @@ func toyOkamoto(gl []uint64, prng *script) *P[okX, okW, okA, okS, okZ] {
 			}
 			return &okamoto.Response[Sc]{Z: must(rg.New(scalars(v)...))}
 		},
-		NR:    len(gl),
+		NR:     len(gl),
 		ZArity: true,
 	}
 	p.FromW = func(w []uint64) (okX, okW) {
@@ -190,10 +192,12 @@ func toyElcomop(xi uint64, prng *script) *P[ecX, ecW, ecA, ecS, ecZ] {
 		PA:    func(a ecA) []uint64 { return logs(a.A.Components()) },
 		PS:    func(s ecS) []uint64 { m, l := s.S.Components(); return []uint64{m.Log(), l.Int()} },
 		PZ:    func(z ecZ) []uint64 { m, l := z.Z.Components(); return []uint64{m.Log(), l.Int()} },
-		MkX: func(v []uint64) ecX { return &elcomop.Statement[E, Sc]{X: imgElem(img, v)} },
-		MkA: func(v []uint64) ecA { return &elcomop.Commitment[E, Sc]{A: imgElem(img, v)} },
-		MkZ:   func(v []uint64) ecZ { return &elcomop.Response[E, Sc]{Z: must(pre.New(toy.FromLog(v[0]), toy.FromInt(v[1])))} },
-		NR:    2,
+		MkX:   func(v []uint64) ecX { return &elcomop.Statement[E, Sc]{X: imgElem(img, v)} },
+		MkA:   func(v []uint64) ecA { return &elcomop.Commitment[E, Sc]{A: imgElem(img, v)} },
+		MkZ: func(v []uint64) ecZ {
+			return &elcomop.Response[E, Sc]{Z: must(pre.New(toy.FromLog(v[0]), toy.FromInt(v[1])))}
+		},
+		NR:     2,
 		AArity: true,
 	}
 	p.FromW = func(w []uint64) (ecX, ecW) {
